@@ -30,7 +30,7 @@ PROPS = {
     },
     "C05": {
         "generators": [{"name": "C05"}],
-        "explanation": "Theorems compact_pick_ok, compact_step_ok (each micro-step preserves the contents and the invariants Inv, CInv, MetaOK), writers preserve CInv, db_compact_ok, no resurrection after recovery. Tie: Compact stepped yield point by yield point with writer operations in between, crash inside, dumps; ShapeCheck.compact_order.",
+        "explanation": "Theorems compact_pick_ok, compact_step_ok (each micro-step preserves the contents and the invariants Inv, CInv, MetaOK), writers preserve CInv, db_compact_ok, no resurrection after recovery. Tie: Compact stepped yield point by yield point with writer operations in between (also Puts of new keys that split buckets inside the per-record windows), crash inside, dumps; ShapeCheck.compact_order.",
         "assumptions": COMMON_ASSUME,
     },
     "C06": {
@@ -40,7 +40,7 @@ PROPS = {
     },
     "C07": {
         "generators": [{"name": "C07"}],
-        "explanation": "Linz.v: every concurrent history (call / return events of any number of threads, each operation taking effect at one atomic action in between, pending operations allowed) of the chain-index database is linearizable in the sense of Herlihy and Wing with respect to the plain map, also with compaction running as background micro-steps (C07_linearizable, C07_linearizable_microsteps, read-your-writes corollary; sensitivity: a Get split in two instants is not). The atomicity premise is ShapeCheck.all_guarded / single_region over the regenerated lock structure and Conc.pogreb_race_free. Search: porcupine on recorded concurrent histories; readers of acknowledged keys while the database grows.",
+        "explanation": "Linz.v: every concurrent history (call / return events of any number of threads, each operation taking effect at one atomic action in between, pending operations allowed) of the chain-index database is linearizable in the sense of Herlihy and Wing with respect to the plain map, also with compaction running as background micro-steps (C07_linearizable, C07_linearizable_microsteps, read-your-writes corollary; sensitivity: a Get split in two instants is not). The atomicity premise is ShapeCheck.all_guarded / single_region over the regenerated lock structure and Conc.pogreb_race_free. Search: porcupine on recorded concurrent histories; readers of acknowledged keys while the database grows; deterministic interleavings of atomic steps (Compact stepped lock section by lock section with index-splitting Puts in the windows) against the micro-step model and the reference map.",
         "assumptions": COMMON_ASSUME + ["sync.RWMutex provides mutual exclusion (trusted)"],
     },
     "C08": {
@@ -51,7 +51,7 @@ PROPS = {
     },
     "C09": {
         "generators": [{"name": "C09"}],
-        "explanation": "PowerLoss.v: C09_closed_is_durable (every admissible power-loss image after a completed Close is the closed directory), C09_reopen (next Open without recovery, closed contents), C09_power_loss_during_reopen; PowerLoss2.v: the same after histories of any number of epochs (C09_reopen_epochs) and a power failure DURING Close (C09_power_loss_during_close). Tie: power-loss images at every call from the return of Close to the completion of the next Open, reopened; ShapeCheck.close_syncs / close_order.",
+        "explanation": "PowerLoss.v: C09_closed_is_durable (every admissible power-loss image after a completed Close is the closed directory), C09_reopen (next Open without recovery, closed contents), C09_power_loss_during_reopen; PowerLoss2.v: the same after histories of any number of epochs (C09_reopen_epochs) and a power failure DURING Close (C09_power_loss_during_close). Tie: power-loss images at every call from the return of Close to the completion of the next Open, reopened; Close with each of its data calls (WriteAt / Sync / Truncate) failing once: whenever it still returns nil, power-loss images right after it; ShapeCheck.close_syncs / close_order.",
         "assumptions": COMMON_ASSUME + ["power-loss model exactly as the property words it"],
     },
     "C10": {
@@ -77,7 +77,7 @@ PROPS = {
     },
     "C14": {
         "generators": [{"name": "C14"}],
-        "explanation": "ShapeCheck.results_copied over the regenerated shapes (Get/GetAppend/fetchItems copy inside the critical section); runtime part: returned slices re-read after overwrites, compaction removing the source segment, Close, under SetPanicOnFault, on all three file systems.",
+        "explanation": "ShapeCheck.results_copied over the regenerated shapes (Get/GetAppend/fetchItems copy inside the critical section); runtime part: returned slices re-read after overwrites, compaction removing the source segment, Close, under SetPanicOnFault, on all three file systems and on user-written pass-through wrappers of fs.Mem and fs.OSMMap; the caller also writes into the slices Get returned and the stored values are re-read.",
         "assumptions": COMMON_ASSUME + ["partial: aliasing and unmapping are properties of the Go heap and the MMU; exercised, not proved"],
     },
     "C15": {
